@@ -456,6 +456,12 @@ func c04(c *Ctx) {
 			"Match writes into the argument slice it was given ("+why+"): the same slice is handed to every later-registered condition, which then sees corrupted arguments")
 	}
 
+	// ---- R7 mechanics of the unwrapping
+	r.Floor("C04.R7", 6)
+	c04Unwrap(p, r)
+	c04ElemComplete(p, r)
+	r.Floor("C04.R8", 3)
+	c04FlagAgreement(p, r)
 	// ---- R4 variadic unwrapping confined to the tail
 	nUnwrap := 0
 	for _, f := range append(append([]*ssa.Function{}, root...), p.FuncsIn("arg")...) {
@@ -487,12 +493,19 @@ func c04(c *Ctx) {
 				r.Check(ok, "C04.R4", "Type.Elem under variadic in "+shortName(f), p.Pos(posOf(cl)), "applied to the last parameter type only",
 					"under the variadic flag Type.Elem() is applied to a parameter type that is not provably the last one: a fixed leading parameter (func(int, ...string)) is unwrapped and panics")
 			case cn == "(reflect.Value).Len" || cn == "(reflect.Value).Index":
-				if !underVariadic(p, cl.Block()) {
-					return
-				}
 				var srcs []*ssa.IndexAddr
 				collectIndexSources(cl.Call.Args[0], &srcs, map[ssa.Value]bool{})
 				if len(srcs) == 0 {
+					return
+				}
+				if !underVariadic(p, cl.Block()) {
+					// the converse: an element of the call's argument list is taken apart as a list only for variadic functions
+					for _, ia := range srcs {
+						if isValueSlice(ia.X.Type()) {
+							r.Bad("C04.R4", "argument unwrapped only under the variadic flag in "+shortName(f), p.Pos(posOf(cl)),
+								"an element of the argument list is taken apart with Value.Len/Index on a path where the function is not known to be variadic: for an ordinary function the last argument is not a packed slice, so the call panics ('Len of int Value') or its elements are matched as separate arguments")
+						}
+					}
 					return
 				}
 				nUnwrap++
